@@ -6,6 +6,7 @@ import (
 	"go/token"
 	"go/types"
 	"sort"
+	"strings"
 
 	"engcheck/core"
 	"golang.org/x/tools/go/cfg"
@@ -265,4 +266,28 @@ func lenPositive(cmp core.Cmp) (edge int, ok bool) {
 		}
 	}
 	return 0, false
+}
+
+// positiveEdge: +1 when the comparison's true edge establishes x >= 1 for a
+// non-negative integer x (x > 0, x != 0, x >= 1, 0 < x …), -1 when its false
+// edge does (x == 0, x <= 0, x < 1 …), 0 otherwise.
+func positiveEdge(cmp core.Cmp) int {
+	if e, ok := lenPositive(cmp); ok {
+		if e == 0 {
+			return 1
+		}
+		return -1
+	}
+	return 0
+}
+
+// isLogCall: a call on one of the repository's package-level loggers
+// (socket_log.Debug, ws_log.Debug, …) or of the log package.
+func isLogCall(cl *core.Call) bool {
+	if cl.Recv != nil {
+		if id, ok := ast.Unparen(cl.Recv).(*ast.Ident); ok && strings.HasSuffix(id.Name, "_log") {
+			return true
+		}
+	}
+	return strings.HasPrefix(cl.Key, "log.") || strings.Contains(cl.Key, "/log.")
 }
